@@ -43,10 +43,23 @@ def bounds(ctx):
               MaxIters=[1] if q else [1, 2], Kicks=[1, 3], MaxSteps=4 if q else 5, MaxRefusals=1), sc.INV_C12 + sc.INV_C13,
          sc.PROP_C12 + sc.PROP_C13, ACTIONS + ["Links", "Induced"]),
     ]
+    therm = dict(Thermals=[True], MaxThermal=4, Adaptives=[True, False], Windows=[1, 2], RetrySet=[1] if q else [0, 2],
+                 MulExps=[1], Deltas=[0, 1024, 16384] if q else D4, MaxSteps=4 if q else 5, MaxRefusals=2 if q else 3)
+    models += [
+        # thermalisation: the step index restarts, tentative_dt and the window list persist, second warm-up
+        ("StepCtl[C12 thermalisation then recorded stage]", therm, sc.INV_C12, sc.PROP_C12, ACTIONS + ["StageRestart"]),
+        ("StepCtl[C12 thermalisation with screening]",
+         dict(Thermals=[True], MaxThermal=3, Adaptives=[True], Screenings=[True], Windows=[1], RetrySet=[1], MulExps=[1],
+              Deltas=[0, 1024], MaxIters=[1], Kicks=[1, 3], MaxSteps=3, MaxRefusals=1), sc.INV_C12 + sc.INV_C13,
+         sc.PROP_C12 + sc.PROP_C13, ACTIONS + ["StageRestart", "Induced"]),
+    ]
     small = dict(Adaptives=[True], Windows=[1], RetrySet=[0, 1], MulExps=[1], Deltas=D4, MaxSteps=5, MaxRefusals=4)
     scr2 = dict(Adaptives=[True], Screenings=[True], Windows=[2], RetrySet=[0], MulExps=[1], Deltas=[0, 1024, 16384],
                 MaxIters=[1], Kicks=[1, 3], MaxSteps=4, MaxRefusals=0)
-    canaries = [("MEntryPerIteration", scr2, "TentativeFollowsWindowRule"), ("MSliceExtra", small, "TentativeFollowsWindowRule"), ("MClipInit", small, "TentativeFollowsWindowRule"),
+    thsmall = dict(Thermals=[True], MaxThermal=4, Adaptives=[True], Windows=[1], RetrySet=[1], MulExps=[1], Deltas=[0, 1024, 16384],
+                   MaxSteps=3, MaxRefusals=1)
+    canaries = [("MGlobalStepCount", thsmall, "TentativeFollowsWindowRule"), ("MResetTentative", thsmall, "TentativeChangesOnlyAtFinish"),
+                ("MEntryPerIteration", scr2, "TentativeFollowsWindowRule"), ("MSliceExtra", small, "TentativeFollowsWindowRule"), ("MClipInit", small, "TentativeFollowsWindowRule"),
                 ("MWarmupRule", small, "TentativeFollowsWindowRule"), ("MNeverRaise", small, "RetriesExhaustedRaises"),
                 ("MNeverRaise", small, "RetriesBounded"), ("MMulFirst", small, "ReturnedDtIsAnswered")]
     exports = [
@@ -59,7 +72,11 @@ def bounds(ctx):
         ("non-adaptive", dict(Adaptives=[False], InitEs=[4, 6], Deltas=[0, 1024], MaxSteps=4, MaxRefusals=1)),
         ("screening", dict(Adaptives=[True], Screenings=[True], Windows=[1], RetrySet=[1], MulExps=[1], Deltas=[0, 1024],
                            MaxIters=[1], Kicks=[1, 3], MaxSteps=3, MaxRefusals=2)),
-        ("screening window 2", dict(scr2, MaxSteps=4 if q else 5)),
+        ("screening window 2", dict(scr2, Deltas=[0, 1024] if q else [0, 1024, 16384], MaxSteps=4 if q else 5)),
+        ("thermalisation", dict(Thermals=[True], MaxThermal=3 if q else 4, Adaptives=[True], Windows=[1], RetrySet=[1], MulExps=[1],
+                                Deltas=[0, 1024, 16384], MaxSteps=3 if q else 4, MaxRefusals=1 if q else 2)),
+        ("thermalisation window 2 / fixed step", dict(Thermals=[True], MaxThermal=4, Adaptives=[True, False], Windows=[2], RetrySet=[0],
+                                                      MulExps=[2], Deltas=[0, 1024], MaxSteps=4, MaxRefusals=1)),
     ]
     return models, canaries, exports
 
@@ -83,6 +100,13 @@ def natural_matrix(ctx):
         # screening with retries: dt is kept across the iterations of a step
         dict(dev="bar", screening=True, tol=1e-2, dt_init=2.0 ** -3, dt_max=1.0, window=2, current=12.0, field=1.0,
              solve_time=0.6, k=50),
+        # thermalisation (skip_time > 0) with retries in both stages: the step index restarts, tentative_dt and the
+        # window list persist, the recorded stage has a warm-up of its own
+        dict(dev="bar", dt_init=0.25, dt_max=100.0, window=2, current=20.0, field=1.0, skip_time=6.0, solve_time=8.0,
+             retries=10, k=50),
+        dict(dev="barhole", dt_init=2.0 ** -6, dt_max=0.5, window=3, current=12.0, field=1.0, skip_time=1.0, solve_time=2.0,
+             retries=10, multiplier=0.5, k=50),
+        dict(dev="bar", adaptive=False, dt_init=2.0 ** -6, current=3.0, field=0.3, skip_time=0.1, solve_time=0.2, k=50),
         # adaptive + screening with a proposal that is NOT clipped and dynamics that change from step to step: the
         # window must hold one delta per solve step, however many screening iterations a step took
         dict(dev="bar", screening=True, tol=1e-2, alpha=0.5, beta=0.5, dt_init=2.0 ** -8, dt_max=0.25, window=4,
@@ -107,6 +131,11 @@ def natural_matrix(ctx):
         out.append(dict(dev=dev, dt_init=2.0 ** -7, dt_max=1.0, window=5, solve_time=12.0, k=50))
     out.append(dict(dev="bar", screening=True, tol=1e-3, alpha=0.3, beta=0.8, dt_init=2.0 ** -7, dt_max=0.5, window=3,
                     current=25.0, field=0.5, solve_time=0.8, k=50))
+    for window, skip in ((1, 2.0), (2, 5.0), (5, 9.0)):
+        out.append(dict(dev=rnd.choice(["bar", "barhole"]), dt_init=0.25, dt_max=rnd.choice([4.0, 100.0]), window=window,
+                        current=20.0, field=1.0, skip_time=skip, solve_time=6.0, retries=10, k=50))
+    out.append(dict(dev="bar", screening=True, tol=1e-2, alpha=0.5, beta=0.5, dt_init=2.0 ** -8, dt_max=0.25, window=4,
+                    current=20.0, field=1.0, skip_time=0.5, solve_time=0.6, k=50))
     out.append(dict(dev="tee", screening=True, tol=1e-2, dt_init=2.0 ** -8, dt_max=0.25, window=5, current=25.0, field=1.0,
                     solve_time=0.8, k=50))
     return out
@@ -145,6 +174,13 @@ def run(ctx):
     if not (sum(s["refusals"] for s in st) > 50 and "euler" in raised and sum(s["rule_steps"] for s in st) > 50
             and any(s["max_retries_in_a_step"] >= 3 for s in st)):
         raise core.MachineryFailure(f"natural runs did not exercise retries / the rule / exhaustion: {st} {raised}")
+    th = [(t, s) for t, s in zip(ntraces, st) if t["params"].get("skip_time") and t["params"].get("adaptive", True)]
+    if not any(s["restarts"] == 1 and s["refusals_before_restart"] > 10 and s["refusals"] - s["refusals_before_restart"] > 10
+               and s["tent_at_restart"] != t["params"]["dt_init"] and s["updates"] - s["updates_before_restart"] > t["params"]["window"] + 3
+               for t, s in th):
+        raise core.MachineryFailure(f"no thermalised natural run with retries in both stages and a changed tentative step: {[s for _, s in th]}")
+    if not any(t["cfg"]["thermal"] and any(e["ev"] == "restart" for e in t["ev"]) and t["ev"][-1]["ev"] == "return" for t in straces):
+        raise core.MachineryFailure("no scripted replay crosses the stage restart")
     if not any(t["params"].get("screening") and t["params"].get("adaptive", True) and s["unclipped_rule_steps"] >= 5
                and s["max_screening_iterations"] >= 2 for t, s in zip(ntraces, st)):
         raise core.MachineryFailure(f"no adaptive + screening natural run with an unclipped window rule: {st}")
